@@ -615,7 +615,8 @@ class DEVSSimulator(Simulator[TIME], Generic[TIME]):
                     and not self._run_until_including) 
                     or self.eventlist().is_empty()):
                 self._simulator_time = self._run_until_time
-                self._replication_state = ReplicationState.ENDING
+                if self._run_until_time >= self._replication.end_sim_time:
+                    self._replication_state = ReplicationState.ENDING
                 self._run_state = RunState.STOPPING
                 return;
             # get the first event
